@@ -499,7 +499,7 @@ theorem tlv_length_ge (tag : UInt8) (c : Bytes) : c.length ≤ (tlv tag c).lengt
 /-- the parser is canonical: whatever it accepts is the DER encoding of the pair it returns, followed inside the
 SEQUENCE by `extra` and after it by `rest` -/
 theorem parseSigPair_sound (sig : Bytes) (p : SigPair) (h : parseSigPair sig = some p) :
-    sig = derSigX p.r p.s p.extra ++ p.rest := by
+    sig = derSigX p.r p.s p.extra ++ p.rest ∧ (derInt p.r ++ derInt p.s ++ p.extra).length < 2^31 := by
   unfold parseSigPair at h
   cases h0 : parseTLV 0x30 sig with
   | none => simp [h0] at h
@@ -517,12 +517,13 @@ theorem parseSigPair_sound (sig : Bytes) (p : SigPair) (h : parseSigPair sig = s
         obtain ⟨s, extra⟩ := v2
         simp only [h2, Option.some.injEq] at h
         subst h
-        have e0 := (parseTLV_sound _ _ _ _ h0).1
+        obtain ⟨e0, hlt⟩ := parseTLV_sound _ _ _ _ h0
         have e1 := parseInteger_sound _ _ _ h1
         have e2 := parseInteger_sound _ _ _ h2
+        have ein : inner = derInt r ++ derInt s ++ extra := by rw [e1, e2]; simp
+        refine ⟨?_, by rw [← ein]; exact hlt⟩
         simp only [derSigX]
-        rw [e0, e1, e2]
-        simp
+        rw [e0, ein]
 
 /-- completeness: every canonical encoding, with anything after `s` inside the SEQUENCE and anything after the
 SEQUENCE, is accepted and yields exactly (r, s) -/
